@@ -82,7 +82,7 @@ def reader_guards(ctx, mi):
           U.parent(fi.node, g) is fi.node
     ctx.ob('VOCAB/reader-guard', fi, g or fi.node, ok, '%s rejects exactly %s' % (name, what) if ok else
            '%s does not reject exactly %s (%s): names written by pitches_to_chord_symbol can be refused by the parser' % (name, what, norm_text(g.test) if isinstance(g, ast.If) else 'no single guarded raise'),
-           construct='%s rejects %s' % (name, what))
+           construct='%s rejects %s' % (name, what), definite=len(raises) == 1 and isinstance(g, ast.If))
 
 
 # ------------------------------------------------------------------ IDX(a)
